@@ -20,10 +20,11 @@ SameNumbers(a, b) ==
     /\ Near(a.vJ, b.vJ, 200) /\ Near(a.alN, b.alN, 200)                       \* hydrodynamics rtol 1e-6 (x margin)
     /\ (a.lte = "root" => Near(a.vLTE, b.vLTE, 200))
     \* tabulated ranges / Tn (1e-6 ticks): an end where the phase genuinely disappears is a physical temperature (0.2%);
-    \* an unflagged end is only where the last step before the requested end happened to fall (2%: not an output the
+    \* an unflagged end is only where the last step before the requested end happened to fall; in unit systems with
+    \* Tn < 0.15 the absolute tolerance of the ODE integrator shapes the step sequence and the end moves by up to 3% (5%: not an output the
     \* property lists -- the step sequence of the tracer may differ between unit systems)
     /\ Len(a.ranges) = Len(b.ranges)
-    /\ \A k \in 1..Len(a.ranges) : Near(a.ranges[k], b.ranges[k], IF a.flags[k] THEN 2000 ELSE 20000)
+    /\ \A k \in 1..Len(a.ranges) : Near(a.ranges[k], b.ranges[k], IF a.flags[k] \/ ~(a.smallUnits \/ b.smallUnits) THEN 2000 ELSE 50000)
     /\ a.kind = "VELOCITY" =>
          /\ Near(a.vw, b.vw, 2 * a.errTol)
          /\ Near(a.Tp, b.Tp, 2000) /\ Near(a.Tm, b.Tm, 2000)                   \* temperatures follow vw: d T/d vw ~ 0.1
